@@ -87,6 +87,7 @@ void *vh_arena_copy(const void *src, size_t n);
 void  vh_arena_reset(void);
 void  vh_poison(const void *p, size_t n);
 void  vh_unpoison(const void *p, size_t n);
+void  vh_mark_uninit(const void *p, size_t n); /* MSan: content is uninitialised; elsewhere: nothing */
 int   vh_have_asan(void);
 
 /* ---- misc ---- */
